@@ -126,8 +126,8 @@ class Prop(PropBase):
             s = scen.Scn(f'c13_sock_{k}')
             s.lines.append(cfg.line(0, l)); s.lines.append(f'N 0 2 {msop} {difop} 0 0')
             sizes = [0, 1, 2, user + tail - 1, user + tail, user + tail + 1, user + tail + 2, 1248 + user + tail, 1545, 1546, 1547, 3000, 65507]
-            for j in range(10 if tier == 'quick' else 30):
-                n = max(0, rng.choice(sizes))
+            for j in range(len(sizes) + (4 if tier == 'quick' else 20)):
+                n = max(0, sizes[j] if j < len(sizes) else rng.choice(sizes))      # every boundary size in every scenario, then random ones
                 p = good()
                 wire = (bytes([0x55, 0xAA] * (user // 2)) + p + bytes(tail) + bytes(70000))[:n] if rng.random() < 0.6 else \
                        (bytes(user) + b'\x55\xaa' + bytes(70000))[:n]
